@@ -1,7 +1,10 @@
 (* compiler/meta.rs: the assignment tracker behind `undeclared_variables` and the computation of
    a macro's closure (find_macro_closure), for the core fragment, mirrored visit by visit
    (including the order in which each construct visits its sub-terms and the "assigned on
-   first lookup" shortcut of the non-nested mode). *)
+   first lookup" shortcut of the non-nested mode).
+   State of the code mirrored: meta.rs after the C18 fixes (a target is assigned after its
+   right-hand side / body was visited, macro parameters last to first with their defaults, the
+   macro name after the macro, `loop` after iterable and filter, autoescape value visited). *)
 From MJ Require Import Common.Base Lang.Syntax.
 
 Fixpoint list_eqb_Z (a b : list Z) : bool :=
@@ -48,13 +51,25 @@ Fixpoint visit_expr (e : expr) (t : tstate) {struct e} : tstate :=
 Definition assign_target (tg : target) (t : tstate) : tstate :=
   match tg with TVar x => t_assign x t | TPair x y => t_assign y (t_assign x t) end.
 
+(* the default of parameter [p], if it has one (the parser only accepts defaults on trailing
+   parameters, so pairing them by name is the reversed zip of codegen.rs / meta.rs) *)
+Fixpoint default_of (p : name) (defaults : list (name * expr)) : option expr :=
+  match defaults with
+  | [] => None
+  | (k, d) :: r => if p =? k then Some d else default_of p r
+  end.
+
+(* tracker_visit_macro: parameters last to first, the default of a parameter right before the
+   parameter is assigned (the order in which the compiled macro stores its arguments) *)
+Definition visit_params (params : list name) (defaults : list (name * expr)) (t : tstate) : tstate :=
+  fold_left (fun t p => t_assign p (match default_of p defaults with Some d => visit_expr d t | None => t end))
+            (rev params) t.
+
 Fixpoint walk (s : stmt) (t : tstate) {struct s} : tstate :=
   let walk_list := fix go (l : list stmt) (t : tstate) : tstate := match l with [] => t | x :: r => go r (walk x t) end in
   let visit_macro (declare_caller : bool) (params : list name) (defaults : list (name * expr)) (body : list stmt) (t : tstate) :=
       let t := if declare_caller then t_assign N_caller t else t in
-      let t := fold_left (fun t p => t_assign p t) params t in
-      let t := fold_left (fun t d => visit_expr (snd d) t) defaults t in
-      walk_list body t in
+      walk_list body (visit_params params defaults t) in
   match s with
   | SRaw _ | SBreak | SContinue => t
   | SEmit e => visit_expr e t
@@ -72,32 +87,31 @@ Fixpoint walk (s : stmt) (t : tstate) {struct s} : tstate :=
              end
          end) arms t
   | SFor tg iter flt body els _ =>
-      let t := t_assign N_loop (t_push t) in
+      (* the iterable is evaluated outside of the loop; the filter sees the target but not `loop` *)
       let t := visit_expr iter t in
-      let t := assign_target tg t in
+      let t := assign_target tg (t_push t) in
       let t := match flt with Some f => visit_expr f t | None => t end in
+      let t := t_assign N_loop t in
       let t := t_pop (walk_list body t) in
       t_pop (match els with Some b => walk_list b (t_push t) | None => t_push t end)
-  | SSet x e => visit_expr e (t_assign x t)
-  | SSetBlock x body _ => t_pop (walk_list body (t_push (t_assign x t)))
+  | SSet x e => t_assign x (visit_expr e t)
+  | SSetBlock x body _ => t_assign x (t_pop (walk_list body (t_push t)))
   | SWith binds body =>
-      let t := fold_left (fun t b => visit_expr (snd b) (t_assign (fst b) t)) binds (t_push t) in
+      let t := fold_left (fun t b => t_assign (fst b) (visit_expr (snd b) t)) binds (t_push t) in
       t_pop (walk_list body t)
-  | SMacro nm params defaults body => t_pop (visit_macro true params defaults body (t_push (t_assign nm t)))
+  | SMacro nm params defaults body => t_assign nm (t_pop (visit_macro true params defaults body (t_push t)))
   | SCallBlock mn args body =>
       let t := fold_left (fun t a => visit_expr a t) args (t_lookup mn t) in
       t_pop (visit_macro true [] [] body (t_push t))
-  | SFilterBlock _ body | SAutoEscape _ body => t_pop (walk_list body (t_push t))
+  | SFilterBlock _ body => t_pop (walk_list body (t_push t))
+  | SAutoEscape v body => t_pop (walk_list body (t_push (visit_expr v t)))
   end.
 
 Definition walk_list (l : list stmt) (t : tstate) : tstate := fold_left (fun t s => walk s t) l t.
 
 (* find_macro_closure: tracker_visit_macro(m, fresh, declare_caller = false) *)
 Definition closure_raw (params : list name) (defaults : list (name * expr)) (body : list stmt) : list name :=
-  let t := mkT [] [[]] in
-  let t := fold_left (fun t p => t_assign p t) params t in
-  let t := fold_left (fun t d => visit_expr (snd d) t) defaults t in
-  t_out (walk_list body t).
+  t_out (walk_list body (visit_params params defaults (mkT [] [[]]))).
 
 Definition uses_caller params defaults body : bool := mem N_caller (closure_raw params defaults body).
 Definition macro_closure params defaults body : list name :=
